@@ -503,6 +503,9 @@ def rule_subst_order(ck, facts, lang, R="C09.subst-order"):
 
 
 def run(ck, facts, tier):
+    from ..rules import saverestore
+
+    saverestore.run(ck, facts, "C09.stage-tracker", "mimium_lang", scope="::compiler::typing", floor=2, why="the stage a bracket or an escape switches to is the surrounding stage again when the construct ends")
     lang = facts.crate(roles.LANG)
     rule_forms(ck, facts, lang)
     em, reg = rule_names(ck, facts, lang)
